@@ -218,7 +218,12 @@ def check(ctx):
                             nm = st.targets[0].id
                         if nm and any(isinstance(x, ast.Name) and x.id == nm for x in ast.walk(r.value)):
                             carrying.append(r)
-                ok = bool(carrying) and all("dtype" in unparse(r.value) and "shape" in unparse(r.value) for r in carrying)
+                def _carries(r, attr):
+                    # the attribute itself, not a lossy projection of it (x.dtype.str is '|V8' for every
+                    # 8-byte structured dtype)
+                    elts = r.value.elts if isinstance(r.value, ast.Tuple) else [r.value]
+                    return any(isinstance(e, ast.Attribute) and e.attr == attr and isinstance(e.value, ast.Name) for e in elts)
+                ok = bool(carrying) and all(_carries(r, "dtype") and _carries(r, "shape") for r in carrying)
                 ctx.ob(
                     "INJ.typed-buffer",
                     c,
@@ -253,6 +258,17 @@ def check(ctx):
     ctx.floor("canonical_sorts", 2)
     ctx.floor("alternative_encodings", 1)
 
+    # ---------------- INJ.dtype: the dtype normaliser must not project structured dtypes onto their size
+    nd = [f for f in funcs if f.name == "normalize_dtype"]
+    if not nd:
+        raise AnchorMissing("normalize_dtype registration")
+    for r in returns(nd[0]):
+        if unparse(r.value).endswith(".str"):
+            facts = {(unparse(e), pol) for e, pol in cfg_of(nd[0]).facts(r)}
+            ok = ("dtype.kind == 'V'", False) in facts or ("dtype.fields is None", True) in facts
+            ctx.ob("INJ.dtype", r, "normalize_dtype returns dtype.str only for non-void dtypes", ok, "" if ok else "dtype.str of a structured or sub-array dtype is '|V<itemsize>': dtypes differing in field names/types/offsets share a token (and arrays created with them share names)")
+    ok = any(not unparse(r.value).endswith(".str") for r in returns(nd[0]))
+    ctx.ob("INJ.dtype.void", nd[0], "void (structured / sub-array) dtypes are tokenized by their full description", ok)
     # ---------------- TAB.type-tag
     tags = {}
     for fname, want in (("normalize_dict", "dict"), ("normalize_set", "set")):
@@ -314,6 +330,8 @@ def check(ctx):
 
 
 VARIANTS = [
+    (TOK, "        return (data, x.dtype, x.shape)", "        return (data, x.dtype.str, x.shape)", "INJ.typed-buffer"),
+    (TOK, "        if dtype.kind == \"V\":", "        if False:", "INJ.dtype"),
     (TOK, "                except UnicodeDecodeError:\n                    # bytes fast-path", "                except TypeError:\n                    # bytes fast-path", "INJ.alternatives"),
     (TOK, '                data = hash_buffer_hex(x.ravel(order="C").view("i1"))', '                data = hash_buffer_hex(x.ravel(order="K").view("i1"))', "INJ.layout"),
     (TOK, "                data = data, hash_buffer_hex(\n                    np.fromiter(map(len, x.flat), dtype=\"i8\", count=x.size)\n                )\n", "", "INJ.join"),
